@@ -230,28 +230,19 @@ where
         }
     }
 
-    #[expect(clippy::type_complexity)]
-    pub fn take<Q>(
-        &mut self,
-        hash: u64,
-        key: &Q,
-        id: Option<usize>,
-    ) -> Option<Vec<Notifier<Option<RawCacheEntry<E, S, I>>>>>
+    pub fn take<Q>(&mut self, hash: u64, key: &Q, id: Option<usize>) -> Option<Taken<E, S, I>>
     where
         Q: Hash + Equivalent<E::Key> + ?Sized,
     {
         match self.inflights.entry(hash, |e| key.equivalent(&e.key), |e| e.hash) {
             Entry::Occupied(o) => match id {
-                Some(id) if id == o.get().inflight.id => Some(o.remove().0.inflight),
+                Some(id) if id == o.get().inflight.id => Some(o.remove().0),
                 Some(_) => None,
-                None => Some(o.remove().0.inflight),
+                None => Some(o.remove().0),
             },
             Entry::Vacant(..) => None,
         }
-        .map(|inflight| {
-            inflight.close.store(true, Ordering::Relaxed);
-            inflight.notifiers
-        })
+        .map(Taken::new)
     }
 
     pub fn fetch_or_take<Q, C>(&mut self, hash: u64, key: &Q, id: usize) -> Option<FetchOrTake<E, S, I, C>>
@@ -268,12 +259,7 @@ where
                 let f = o.get_mut().inflight.f.take();
                 match f.map(unerase_required_fetch_builder) {
                     Some(f) => Some(FetchOrTake::Fetch(f)),
-                    None => {
-                        let inflight = o.remove().0.inflight;
-                        inflight.close.store(true, Ordering::Relaxed);
-                        let notifiers = inflight.notifiers;
-                        Some(FetchOrTake::Notifiers(notifiers))
-                    }
+                    None => Some(FetchOrTake::Notifiers(Taken::new(o.remove().0))),
                 }
             }
         }
@@ -304,5 +290,36 @@ where
     I: Indexer<Eviction = E>,
 {
     Fetch(RequiredFetchBuilder<E::Key, E::Value, E::Properties, C>),
-    Notifiers(Vec<Notifier<Option<RawCacheEntry<E, S, I>>>>),
+    Notifiers(Taken<E, S, I>),
+}
+
+/// The waiters of an inflight that is removed from the [`InflightManager`].
+///
+/// It also owns the rest of the removed entry (the user's key and a pending fetch builder), so that they are
+/// dropped by the caller, out of the lock critical sections, instead of inside the manager.
+pub struct Taken<E, S, I>
+where
+    E: Eviction,
+    S: HashBuilder,
+    I: Indexer<Eviction = E>,
+{
+    pub notifiers: Vec<Notifier<Option<RawCacheEntry<E, S, I>>>>,
+    _key: E::Key,
+    _f: Option<RequiredFetchBuilderErased<E::Key, E::Value, E::Properties>>,
+}
+
+impl<E, S, I> Taken<E, S, I>
+where
+    E: Eviction,
+    S: HashBuilder,
+    I: Indexer<Eviction = E>,
+{
+    fn new(entry: InflightEntry<E, S, I>) -> Self {
+        entry.inflight.close.store(true, Ordering::Relaxed);
+        Self {
+            notifiers: entry.inflight.notifiers,
+            _key: entry.key,
+            _f: entry.inflight.f,
+        }
+    }
 }
